@@ -68,6 +68,8 @@ def check(ctx):
             break
         d = rng.randint(1, 3)
         bounds = [(rng.choice([-1.0, 0.0]), rng.choice([1.0, 2.0])) for _ in range(d)]
+        if rng.random() < .4 or it in (3, 4):           # bounds that are not exactly representable / a zero bound next to a tiny negative number
+            bounds = [(rng.choice([0.1, -0.3, 0.0]), rng.choice([0.3, 0.7, 1.1])) for _ in range(d)]
         names = ['p%d' % i for i in range(d)]
         n0 = rng.randint(6, 20)
         X, y = evidence(rng, d, n0, bounds)
@@ -193,10 +195,35 @@ def check(ctx):
                 ctx.fail_input(dict(case, x=out.tolist()), 'outside the bounds the log posterior is %r (expected -inf, zero gradient)' % v_out)
                 bad = True
                 break
-            for pt in (face, corner):
+            hi_corner = np.array([hi for lo, hi in bounds])
+            for pt in (face, corner, hi_corner):
                 if not math.isfinite(float(np.ravel(post.logpdf(pt))[0])):
                     ctx.fail_input(dict(case, x=pt.tolist()), 'a point exactly on the bounds gets log posterior -inf (bounds are inclusive)')
                     bad = True
+            # the neighbours of a bound: the closest double inside is inside, the closest double outside is outside
+            for k in range(d):
+                for side, bnd in (('lo', bounds[k][0]), ('hi', bounds[k][1])):
+                    inner = np.array([0.5 * (lo + hi) for lo, hi in bounds])
+                    outward = -math.inf if side == 'lo' else math.inf
+                    p_out, p_in = inner.copy(), inner.copy()
+                    p_out[k] = np.nextafter(bnd, outward) if bnd != 0 else math.copysign(1e-18, outward)
+                    p_in[k] = np.nextafter(bnd, -outward)
+                    v_out, v_in = float(np.ravel(post.logpdf(p_out))[0]), float(np.ravel(post.logpdf(p_in))[0])
+                    ctx.count('query', 'bound-neighbour')
+                    if not (math.isinf(v_out) and v_out < 0) or not math.isfinite(v_in):
+                        ctx.fail_input(dict(case, x_outside=p_out.tolist(), x_inside=p_in.tolist(), bound=[k, side, bnd]),
+                                       'next to the %s bound %r of coordinate %d: the closest number outside gets log posterior %r (expected -inf), '
+                                       'the closest number inside %r (expected finite)' % (side, bnd, k, v_out, v_in))
+                        bad = True
+                        break
+                    reqs.append(dict(op='C10.inside', bounds=[list(b) for b in bounds], x=p_out.tolist()))
+                    meta.append(('inside', dict(case, x=p_out.tolist()), False))
+                    reqs.append(dict(op='C10.inside', bounds=[list(b) for b in bounds], x=p_in.tolist()))
+                    meta.append(('inside', dict(case, x=p_in.tolist()), True))
+                if bad:
+                    break
+            if bad:
+                break
                 reqs.append(dict(op='C10.inside', bounds=[list(b) for b in bounds], x=pt.tolist()))
                 meta.append(('inside', dict(case, x=pt.tolist()), True))
             reqs.append(dict(op='C10.inside', bounds=[list(b) for b in bounds], x=out.tolist()))
